@@ -49,6 +49,12 @@ EnvSetAttack(s, g)  == [s EXCEPT !.gA = g]
 EnvSetRelease(s, g) == [s EXCEPT !.gR = g]
 EnvNext(s, d)       == LET e2 == [c \in DOMAIN d |-> EnvStep(s.env[c], d[c], s.gA, s.gR)]
                        IN [s |-> [s EXCEPT !.env = e2], out |-> e2]
+\* Clone (of the Detector, or of the DetectEnvelope adaptor holding it): the copy carries the WHOLE state of the
+\* original at that moment -- the running envelope and both gains (and the state of its detection, e.g. the RMS
+\* window) -- so that it continues the same envelope; afterwards the two are independent of each other.
+\* Every constructor entry point (Detector::new with a Peak / Rms value, ::peak*, ::peak_from_rectifier, ::rms)
+\* denotes EnvNew; moving a detector, putting it on the adaptor or taking the adaptor apart changes nothing.
+EnvClone(s)         == [env |-> s.env, gA |-> s.gA, gR |-> s.gR]
 
 ---------------------------------------------------------------------------
 (* the constant e: 2^-60-wide enclosure, verified from e = sum 1/k! *)
